@@ -139,10 +139,12 @@ func (l *leader) tryTransfer() {
 			println(l, target, ">>", req)
 		}
 		pool := l.getConnPool(target)
+		verifSpawn(l.Raft, "timeoutNow")
 		go func(ch chan<- rpcResponse, deadline time.Time) {
 			resp := &timeoutNowResp{}
 			err := pool.doRPC(req, resp, deadline)
 			ch <- rpcResponse{resp, pool.nid, err}
+			verifDone(l.Raft, "timeoutNow")
 		}(l.transfer.respCh, l.transfer.deadline)
 	}
 }
